@@ -51,7 +51,7 @@ var specs = map[string]Spec{
 	},
 	"C07": {
 		Prop: "C07", Engine: "order-world", Level: "exploration", Binary: "root",
-		Quick:    Tier{Count: 40000, BudgetS: 40},
+		Quick:    Tier{Count: 200000, BudgetS: 60},
 		Thorough: Tier{Count: 3000000, BudgetS: 900},
 		Rule: "one run = one seeded multi-file program (1-4 files in nested directories; diamond and cyclic includes; typedef chains, also through struct fields and containers and back to the struct itself; forward and backward references; include-qualified references; local definitions with dotted names, some shadowing an included name; constants of primitive, enum, typedef, list, set and map type referring to literals, other constants and enum items; field defaults; services with extends across files; 15% carry one unresolvable or ill-typed reference) compiled under N schedules (8 quick, 24 thorough): schedule 0 sorted and 1 reverse map order, the rest random / rotated / one-key-first orders at every range-over-map site of compile (the linker's five loops, Module.Walk, service linking), every second one also with the definitions of every file permuted; oracles: same outcome and same canonical module-graph dump in all schedules; dump equals the reference model's (progen/model.go); one Module object per file; no nil typedef root or unresolved node. " +
 			"Every run is non-trivial; distinct = distinct choice lists.",
@@ -61,7 +61,7 @@ var specs = map[string]Spec{
 	},
 	"C04": {
 		Prop: "C04", Engine: "wire-world", Level: "exploration", Binary: "root", Corpus: true,
-		Quick:    Tier{Count: 320000, BudgetS: 40, RandomSchemas: 8},
+		Quick:    Tier{Count: 1000000, BudgetS: 80, RandomSchemas: 8},
 		Thorough: Tier{Count: 32000000, BudgetS: 900, RandomSchemas: 24},
 		Rule: "one run = one struct-like type of the regenerated corpus (all types of gen/internal/tests/thrift and plugin/api.thrift plus 8 (thorough 24) random programs drawn from VERIF_SEED by the harness's program generator - structs, unions, exceptions, typedef chains, enums, containers, defaults, service argument and result structs - all regenerated from the tree's own templates; a package that does not compile is dropped and listed) and either (deserialization) a byte string - the encoding of a valid Go value built by reflection, optionally put through 1-3 schema-evolution edits on the value tree (add / retype / drop / duplicate / renumber field, change a container's element type, recursively) or 1-3 byte-level mutations - run through FromWire(Decode(b)) and through T.Decode(stream reader) under 4 (thorough 8) seeded delivery schedules incl. truncation and I/O errors; or (serialization) a Go value, valid or damaged (required pointer nil, extra union member, nil element in a container, nil container), run through Encode(stream writer) and through ToWire+Encode. " +
 			"Every run is non-trivial; distinct = distinct choice lists. Per-type hit counts are in coverage.counts.",
